@@ -2,6 +2,7 @@ package vc
 
 import (
 	"fmt"
+	"go/ast"
 	"go/constant"
 	"go/token"
 	"go/types"
@@ -16,12 +17,23 @@ func one(st *State, fr *Frame) []cont { return []cont{{st, fr}} }
 func (c *Ctx) step(st *State, fr *Frame, ins ssa.Instruction) []cont {
 	switch x := ins.(type) {
 	case *ssa.DebugRef:
+		if fr.vars == nil {
+			fr.vars = map[string]debugVar{}
+		}
 		if obj := x.Object(); obj != nil {
 			if _, isVar := obj.(*types.Var); isVar {
-				if fr.vars == nil {
-					fr.vars = map[string]debugVar{}
+				// the reference at the defining occurrence of `v := e` reports the value before
+				// the assignment; the right-hand side is picked up below instead
+				if x.Expr != nil && x.Expr.Pos() == obj.Pos() {
+					if _, isConst := x.X.(*ssa.Const); isConst && !x.IsAddr {
+						return one(st, fr)
+					}
 				}
 				fr.vars[obj.Name()] = debugVar{val: c.reg(fr, x.X, st), isAddr: x.IsAddr, typ: x.X.Type()}
+			}
+		} else if x.Expr != nil && !x.IsAddr {
+			if name, ok := c.assignedVars(fr.fn)[x.Expr]; ok {
+				fr.vars[name] = debugVar{val: c.reg(fr, x.X, st), typ: x.X.Type()}
 			}
 		}
 		return one(st, fr)
@@ -413,6 +425,9 @@ func (c *Ctx) doStore(st *State, fr *Frame, x *ssa.Store) {
 		}
 	}
 	c.checkAccess(st, fr, x, pv, true)
+	if l, ok := pv.(*Loc); ok && l.Kind == LocGlobal && !c.cur.isInit && x.Parent().Name() != "init" {
+		c.emit(st, fr, x, "access", "global-write", False, "write to package-level variable "+l.Global.Name()+" outside of package initialisation", false)
+	}
 	v := c.term(fr, x.Val, st)
 	c.StorePtr(st, pv, x.Addr.Type(), v)
 }
@@ -799,4 +814,39 @@ func typeName(t types.Type) string {
 		s = s[i+1:]
 	}
 	return s
+}
+
+// assignedVars maps the right-hand side expression of every single assignment
+// `v := e` / `v = e` / `var v = e` in a function to the name of v.
+func (c *Ctx) assignedVars(fn *ssa.Function) map[ast.Expr]string {
+	if m, ok := c.assigned[fn]; ok {
+		return m
+	}
+	m := map[ast.Expr]string{}
+	if syn := fn.Syntax(); syn != nil {
+		ast.Inspect(syn, func(n ast.Node) bool {
+			switch a := n.(type) {
+			case *ast.AssignStmt:
+				if len(a.Lhs) == len(a.Rhs) {
+					for i, l := range a.Lhs {
+						if id, ok := l.(*ast.Ident); ok && id.Name != "_" {
+							m[ast.Unparen(a.Rhs[i])] = id.Name
+							m[a.Rhs[i]] = id.Name
+						}
+					}
+				}
+			case *ast.ValueSpec:
+				if len(a.Names) == len(a.Values) {
+					for i, id := range a.Names {
+						if id.Name != "_" {
+							m[a.Values[i]] = id.Name
+						}
+					}
+				}
+			}
+			return true
+		})
+	}
+	c.assigned[fn] = m
+	return m
 }
